@@ -42,6 +42,10 @@ pub enum Op11 {
     UndecodedDrop { attach: u8, multi: bool },
     Route { msgs: u8 },
     ProxyCycle { routes: u8 },
+    /// connect to a name that does not exist and is `len` bytes long (longer than a socket address holds)
+    ConnectLong { len: u16 },
+    /// channel ends, a region and a receiver set dropped by an unwinding (panicking) owner
+    PanicDrop { with_set: bool },
     /// a private router proxy that is dropped without shutdown(), while `keep` of its routes
     /// still have a live sender: its thread, poller and routed receivers must be released
     ProxyDrop { routes: u8, keep: u8 },
@@ -153,12 +157,14 @@ impl Prop for C11 {
         let extra = prop_oneof![
             2 => Just(Op11::ConnectMissing),
             1 => Just(Op11::ConnectStale),
+            1 => prop_oneof![90u16..130, 130u16..6000].prop_map(|len| Op11::ConnectLong { len }),
             2 => (0u8..6).prop_map(|attach| Op11::FailSend { attach }),
             2 => (0u8..7, any::<bool>()).prop_map(|(attach, multi)| Op11::UndecodedDrop { attach, multi }),
             2 => (0u8..5).prop_map(|msgs| Op11::Route { msgs }),
             1 => (0u8..3).prop_map(|routes| Op11::ProxyCycle { routes }),
             1 => (0u8..4, 0u8..4).prop_map(|(routes, keep)| Op11::ProxyDrop { routes, keep }),
             1 => Just(Op11::SpawnChild),
+            1 => any::<bool>().prop_map(|with_set| Op11::PanicDrop { with_set }),
             1 => Just(Op11::Plant),
             1 => (1u32..20000).prop_map(|len| Op11::RegionCloneDrop { len }),
             2 => (0u8..6, any::<bool>()).prop_map(|(attach, multi)| Op11::SendToClosed { attach, multi }),
@@ -184,6 +190,7 @@ impl Prop for C11 {
         vec![
             Case { ops: vec![Op11::ConnectMissing], repeat: fast, fd0: false },
             Case { ops: vec![Op11::ConnectStale], repeat: slow, fd0: false },
+            Case { ops: vec![Op11::ConnectLong { len: 107 }, Op11::ConnectLong { len: 108 }, Op11::ConnectLong { len: 300 }], repeat: fast, fd0: false },
             Case { ops: vec![Op11::FailSend { attach: 4 }], repeat: fast, fd0: false },
             Case { ops: vec![Op11::SendToClosed { attach: 3, multi: true }], repeat: fast, fd0: false },
             Case { ops: vec![Op11::RegionCloneDrop { len: 5000 }], repeat: fast, fd0: false },
@@ -294,6 +301,15 @@ fn run(case: &Case, warmup: bool) -> Result<Outcome, Failure> {
                             let r = IpcSender::<Node>::connect(name);
                             ensure!(r.is_err(), "leak:connect-to-stale-name-succeeded", "connect to the name of a dropped server returned Ok");
                         }
+                    },
+                    Op11::ConnectLong { len } if !os => {
+                        let _ = len;
+                    },
+                    Op11::ConnectLong { len } => {
+                        failing_ops += 1;
+                        let name: String = std::iter::repeat("/nonexistent-ipcv").flat_map(|s| s.chars()).take(*len as usize).collect();
+                        let r = IpcSender::<Node>::connect(name);
+                        ensure!(r.is_err(), "leak:connect-to-missing-name-succeeded", "connect to a {}-byte name that nobody serves returned Ok", len);
                     },
                     Op11::FailSend { attach } => {
                         failing_ops += 1;
@@ -428,6 +444,28 @@ fn run(case: &Case, warmup: bool) -> Result<Outcome, Failure> {
                         }
                         ensure!(wait_for_threads(threads0), "leak:router-thread-remains", "the thread of a private router whose proxy was dropped is still there after it released its handlers");
                         drop(live);
+                    },
+                    Op11::PanicDrop { with_set } => {
+                        let (tx, rx) = ipc::channel::<Node>().map_err(|e| Failure::inconclusive(e.to_string()))?;
+                        let (tx2, rx2) = ipc::channel::<Node>().map_err(|e| Failure::inconclusive(e.to_string()))?;
+                        let with_set = *with_set;
+                        let _ = std::panic::catch_unwind(std::panic::AssertUnwindSafe(move || {
+                            let region = IpcSharedMemory::from_bytes(&payload::stream(7, 5000));
+                            let _ = tx.send(Node::List(vec![Node::Shm(region.clone()), Node::Tx(tx2)]));
+                            let mut set = IpcReceiverSet::new().unwrap();
+                            let _owned = (tx, region);
+                            if with_set {
+                                set.add(rx).unwrap();
+                                set.add(rx2).unwrap();
+                                let _ = set.select();
+                            } else {
+                                let _got = rx.recv();
+                                let _keep = rx2;
+                                std::panic::panic_any("intended: the owner of these handles unwinds");
+                            }
+                            std::panic::panic_any("intended: the owner of these handles unwinds");
+                        }));
+                        let _ = crate::take_panics();
                     },
                     Op11::SpawnChild => {
                         if os {
